@@ -25,7 +25,17 @@ def _child(fn, args, w, silence):
         code = 3
     finally:
         try:
+            # pools first, in an orderly way: killing only the worker processes races with a pool's maintenance
+            # thread, which refills the pool; the orphans then keep the result pipe open and the parent waits forever
+            import gc
             import multiprocessing
+            import multiprocessing.pool
+            for obj in gc.get_objects():
+                try:
+                    if isinstance(obj, multiprocessing.pool.Pool):
+                        obj.terminate()
+                except BaseException:
+                    pass
             for c in multiprocessing.active_children():
                 c.terminate()
         except BaseException:
